@@ -266,7 +266,9 @@ func cmdCheck(args []string) int {
 			solverTime += t
 		}
 		if o.Cover {
-			if r.Status != "cover-ok" {
+			// a unit whose contract no longer fits the code fails closed below (every obligation of it is a violation);
+			// that its precondition cannot be compiled is part of the same report, not an internal error
+			if r.Status != "cover-ok" && len(outsideUnits[o.Func]) == 0 {
 				fmt.Fprintf(os.Stderr, "govc: vacuity guard failed: %s is %s %v\n", o.Name, r.Status, r.Answers)
 				internal++
 			}
@@ -686,8 +688,8 @@ func snapshotVerif() (dir, self string, cleanup func()) {
 	return dir, self, cleanup
 }
 
-// mustFailCorpus applies every selftest mutant of the property to a scratch copy of /repo and runs the quick check
-// on it (three at a time); it returns how many there are, how many were reported and which were not.
+// mustFailCorpus applies every selftest mutant and every seeded change of the property to a scratch copy of /repo and
+// runs the quick check on it (three at a time); it returns how many there are, how many were reported and which were not.
 func mustFailCorpus(prop string) (int, int, []string) {
 	dir := filepath.Join(verifDir(), "selftest", "mutants")
 	metas, _ := filepath.Glob(filepath.Join(dir, "*.json"))
@@ -704,6 +706,8 @@ func mustFailCorpus(prop string) (int, int, []string) {
 	sem := make(chan struct{}, 3)
 	n, caught := 0, 0
 	var missed []string
+	type entry struct{ Name, Patch string }
+	var entries []entry
 	for _, m := range metas {
 		var meta struct {
 			Name     string `json:"name"`
@@ -714,6 +718,16 @@ func mustFailCorpus(prop string) (int, int, []string) {
 		if json.Unmarshal(data, &meta) != nil || meta.Property != prop {
 			continue
 		}
+		entries = append(entries, entry{meta.Name, filepath.Join(dir, meta.Patch)})
+	}
+	// the independently written seeded changes of the property (section 10 of DESIGN.md)
+	seeds, _ := filepath.Glob(filepath.Join(verifDir(), "seeded", prop+"-m*", "patch.diff"))
+	sort.Strings(seeds)
+	for _, sp := range seeds {
+		entries = append(entries, entry{"seeded/" + filepath.Base(filepath.Dir(sp)), sp})
+	}
+	for _, meta := range entries {
+		meta := meta
 		n++
 		wg.Add(1)
 		sem <- struct{}{}
@@ -725,7 +739,7 @@ func mustFailCorpus(prop string) (int, int, []string) {
 			repo := filepath.Join(scratch, "repo")
 			ok := false
 			if _, err := exec.Command("rsync", "-a", base+"/", repo+"/").CombinedOutput(); err == nil {
-				cmd := exec.Command("patch", "-p1", "-s", "-i", filepath.Join(dir, meta.Patch))
+				cmd := exec.Command("patch", "-p1", "-s", "-i", meta.Patch)
 				cmd.Dir = repo
 				if _, err := cmd.CombinedOutput(); err == nil {
 					c := exec.Command(self, "check", prop, "--tier", "quick")
@@ -877,9 +891,30 @@ func cmdSeeded(args []string) int {
 			rows[i].Violations = append(rows[i].Violations[:5:5], fmt.Sprintf("... and %d more", n))
 		}
 	}
+	resFile := filepath.Join(verifDir(), "seeded", "RESULTS.json")
+	if *only != "" && *props == "" && os.Getenv("GOVC_SEEDED_MERGE") != "" {
+		// a partial run requested to be merged: replace the rows of the changes just run, keep the others
+		var old []row
+		if data, err := os.ReadFile(resFile); err == nil {
+			_ = json.Unmarshal(data, &old)
+		}
+		ran := map[string]bool{}
+		for _, r := range rows {
+			ran[r.Mutant] = true
+		}
+		for _, r := range old {
+			if !ran[r.Mutant] {
+				rows = append(rows, r)
+			}
+		}
+		sort.Slice(rows, func(i, j int) bool { return rows[i].Mutant < rows[j].Mutant })
+		data, _ := json.MarshalIndent(rows, "", " ")
+		_ = os.WriteFile(resFile, data, 0644)
+		return 0
+	}
 	data, _ := json.MarshalIndent(rows, "", " ")
 	if *only == "" {
-		_ = os.WriteFile(filepath.Join(verifDir(), "seeded", "RESULTS.json"), data, 0644)
+		_ = os.WriteFile(resFile, data, 0644)
 	}
 	return 0
 }
